@@ -32,6 +32,38 @@ def enumerate_placements(max_len):
     return cases
 
 
+def enumerate_ctx_placements(max_len):
+    """TransactCtx with a context that is already cancelled, or that the body cancels just before its
+    k-th statement (k = 0..len; len = after the last one), for every body of 0..max_len statements with at
+    most one driver-failing statement, every reaction, every ending, commit / rollback ok or failing."""
+    cases = []
+    for length in range(max_len + 1):
+        placements = [None] + [(j, f) for j in range(length) for f in ("stop", "ignore", "panic")]
+        for pl in placements:
+            for react in ("stop", "ignore"):
+                stmts = [{"res": "ok", "onfail": react} for _ in range(length)]
+                if pl:
+                    stmts[pl[0]] = {"res": "fail", "onfail": pl[1]}
+                for fin in ("nil", "err", "panic"):
+                    for ctx in [("dead", 0)] + [("at", k) for k in range(length + 1)]:
+                        for commit_ok in (True, False):
+                            for rollback_ok in (True, False):
+                                cases.append({"api": ("ctx", "cached")[len(cases) % 2], "trip": False,
+                                              "begin_ok": True, "stmts": [dict(x) for x in stmts], "fin": fin,
+                                              "commit_ok": commit_ok, "rollback_ok": rollback_ok,
+                                              "ctx": ctx[0], "ctx_at": ctx[1]})
+    return cases
+
+
+def ctx_term(case):
+    c = case.get("ctx") or "live"
+    if c == "dead":
+        return "CDead"
+    if c == "at":
+        return "(CAt %d)" % case.get("ctx_at", 0)
+    return "CLive"
+
+
 class C14(Property):
     id = "C14"
     title = "SQL transactions end exactly once: commit iff the body succeeded"
@@ -85,6 +117,10 @@ class C14(Property):
             {"trip": True, "stmts": [s()]},
             {"trip": True, "api": "cached", "fin": "panic"},
             {"trip": True, "api": "plain", "begin_ok": False},
+            {"ctx": "dead", "stmts": [s()]},                                        # cancelled before the call
+            {"ctx": "at", "ctx_at": 1, "stmts": [s(), s(), s()]},                   # cancelled mid-body -> rollback
+            {"ctx": "at", "ctx_at": 1, "stmts": [s("ok", "ignore"), s("ok", "ignore")]},   # ... swallowed -> commit
+            {"ctx": "at", "ctx_at": 2, "api": "cached", "stmts": [s(), s()], "commit_ok": False},  # after the last one
         ):
             c = dict(base)
             c.update(d)
@@ -93,6 +129,7 @@ class C14(Property):
 
     def gen(self, rng, n, tier):
         cases = enumerate_placements(5 if tier == "thorough" else 4)
+        cases += enumerate_ctx_placements(3 if tier == "thorough" else 2)
         for _ in range(n):
             length = rng.randint(5, 40) if rng.random() < 0.8 else rng.randint(0, 6)
             pfault = rng.choice([0.0, 0.05, 0.15, 0.4])
@@ -103,7 +140,11 @@ class C14(Property):
                                   "onfail": rng.choice(["stop", "ignore", "ignore", "ignore", "panic"])})
                 else:
                     stmts.append({"res": "ok", "onfail": rng.choice(["stop", "ignore", "panic"])})
-            cases.append({"api": rng.choice(APIS), "trip": rng.random() < 0.03,
+            api = rng.choice(APIS)
+            ctx, ctx_at = "live", 0
+            if api in ("ctx", "cached") and rng.random() < 0.3:
+                ctx, ctx_at = rng.choice([("dead", 0), ("at", rng.randint(0, length)), ("at", rng.randint(0, length))])
+            cases.append({"api": api, "trip": rng.random() < 0.03, "ctx": ctx, "ctx_at": ctx_at,
                           "begin_ok": rng.random() < 0.9, "stmts": stmts,
                           "fin": rng.choice(["nil", "nil", "err", "panic"]),
                           "commit_ok": rng.random() < 0.6, "rollback_ok": rng.random() < 0.6})
@@ -149,12 +190,13 @@ class C14(Property):
 
     def coq_case(self, case, obs):
         stmts = clist(["mkStmt %s %s" % (RES[s["res"]], ONFAIL[s["onfail"]]) for s in case["stmts"]])
-        inp = "(mkInput %s %s %s %s %s %s)" % (cbool(not obs["rejected"]), cbool(case["begin_ok"]), stmts,
-                                               FIN[case["fin"]], cbool(case["commit_ok"]), cbool(case["rollback_ok"]))
+        inp = "(mkInput %s %s %s %s %s %s %s)" % (cbool(not obs["rejected"]), cbool(case["begin_ok"]), stmts,
+                                                  FIN[case["fin"]], cbool(case["commit_ok"]), cbool(case["rollback_ok"]),
+                                                  ctx_term(case))
         e = obs["err"]
         # an error that escaped as a panic of Transact itself is "not nil" but matches no class
         eo = "(mkE %s)" % " ".join(cbool(e[k] and not obs.get("panicked")) if k == "nil" else cbool(e[k]) for k in
-                                   ("nil", "unavail", "begin", "commit", "rollback", "same_as_body", "recover", "txfailed"))
+                                   ("nil", "unavail", "begin", "commit", "rollback", "same_as_body", "recover", "txfailed", "canceled"))
         return "mkCase %s %s %s %s %s %s" % (inp, self._log(obs["log"]), cz(obs["runs"]), self._body(obs["body"]),
                                              eo, cz(obs["inuse"]))
 
@@ -170,6 +212,7 @@ class C14(Property):
         fs = ["api=" + case["api"], "fin=" + case["fin"],
               "len=%s" % (n if n <= 5 else "6-20" if n <= 20 else "21+"),
               "body=" + str(obs["body"][0])]
+        fs.append("ctx=" + (case.get("ctx") or "live"))
         if not case["begin_ok"]:
             fs.append("begin_fails")
         if obs["rejected"]:
@@ -187,15 +230,17 @@ class C14(Property):
         for i in range(len(st)):
             c = dict(case)
             c["stmts"] = st[:i] + st[i + 1:]
+            if c.get("ctx") == "at":
+                c["ctx_at"] = min(c.get("ctx_at", 0), len(c["stmts"]))
             res.append(c)
         if len(st) > 4:
             for cut in (len(st) // 2, len(st) // 4):
-                c = dict(case)
-                c["stmts"] = st[:cut]
-                res.append(c)
-                c = dict(case)
-                c["stmts"] = st[cut:]
-                res.append(c)
+                for part in (st[:cut], st[cut:]):
+                    c = dict(case)
+                    c["stmts"] = part
+                    if c.get("ctx") == "at":
+                        c["ctx_at"] = min(c.get("ctx_at", 0), len(part))
+                    res.append(c)
         for i, s in enumerate(st):
             if s["res"] != "ok":
                 c = dict(case)
@@ -203,8 +248,8 @@ class C14(Property):
                 c["stmts"][i] = {"res": "ok", "onfail": "stop"}
                 res.append(c)
         for k, v in (("trip", False), ("begin_ok", True), ("commit_ok", True), ("rollback_ok", True),
-                     ("fin", "nil"), ("api", "ctx")):
-            if case[k] != v:
+                     ("fin", "nil"), ("api", "ctx"), ("ctx", "live")):
+            if case.get(k, v) != v:
                 c = dict(case)
                 c[k] = v
                 res.append(c)
